@@ -222,7 +222,7 @@ theorem lineIdx_congr {s s' : MState} (h1 : s'.lineOrder = s.lineOrder) (h2 : s'
 
 theorem writeTrace_some {s s' : MState} {r t : String} (h : writeTrace s r t = some s') :
     ∃ tr p f, dget s.traces (r, t) = some tr ∧ s.pfx = some p ∧ tr.file = some f ∧
-      s' = { s with fs := dset s.fs (p, r, t) ((dget s.fs (p, r, t)).getD [] ++ f),
+      s' = { s with fs := dset s.fs (p, r, t) (fileBase s (p, r, t) tr.started ++ f),
                     traces := dset s.traces (r, t) { tr with file := some [], started := true } } := by
   unfold writeTrace at h
   split at h
